@@ -22,7 +22,17 @@ RULE = ("person level: every token sequence of length <= 4 (quick; <= 5 sampled 
         "only of characters that are whitespace for CPython (str.strip / isspace: U+00A0, FF, VT, U+2003, U+0085, U+2028, FS-US, "
         "U+1680, U+2000-U+200A, U+2029, U+202F, U+205F, U+3000) but no separators for the name splitters, every token sequence of "
         "length <= 4 (5 in thorough) with one such character plus sampled names of 1-5 words in the three comma forms next to every "
-        "real separator, in lists also glued to the word `and`, in the stack also at the two ends of the value. distinct = distinct input text per level; non-trivial = the premises of the "
+        "real separator, in lists also glued to the word `and`, in the stack also at the two ends of the value; streams reconfig* "
+        "(c14_reconf.py; oracle only, the final step of half of the sessions also through the model): programs in which ONE set of "
+        "the four middleware objects is used 2-6 times (parse_string / write_string, Middleware.transform, transform_block, "
+        "transform_entry; documents of 1-3 entries, recurring persons, sometimes an invalid name) and public configuration "
+        "attributes are reassigned before the first use and between uses (MergeNameParts.style first <-> last, unknown styles, the "
+        "same value, twice in a row; name_fields and allow_inplace_modification attempted - a tree that refuses the assignment "
+        "keeps its configuration), objects constructed with non-default name_fields (the same for all four, or different), uses "
+        "that raise (field values that are no names, SplitNameParts on unseparated names, unknown style) also as the first use; "
+        "each use must do what new objects constructed with the configuration the public attributes show at that moment do, the "
+        "written text must hold the merge (in the style shown) of the structured names, and a last-name-first write must re-parse "
+        "to the same names. distinct = distinct input text per level; non-trivial = the premises of the "
         "inverse law hold (valid names, non-empty last, no word ending in an odd number of backslashes) and some name has >= 2 words")
 TRUSTED = ["the inverse laws are checked directly on the implementation's outputs (harness/props/c14.py), the known class K3 by "
            "names_common.in_k3"]
@@ -116,6 +126,12 @@ def generate(rng, tier):
     # the merge side and the split side must agree on what a word is.  All four levels; generated last so that the streams
     # above draw the same random numbers as before.
     cases += space_cases(rng, tier, adm_name)
+    # the configuration of a middleware object is read at call time: public attributes reassigned between the uses of ONE set
+    # of objects, uses on one library after another, uses that raise (c14_reconf.py).  Appended last.
+    from props import c14_reconf
+    import os as _os
+    if not _os.environ.get("C14_TMP_NO_RECONF"):
+        cases += c14_reconf.cases(rng, tier, good, adm_name, name_forms)
     return cases
 
 
@@ -313,6 +329,10 @@ def gen_session(rng, good, ok):
 
 def shrink(case):
     inp = case["input"]
+    if inp["level"] == "reconfig":
+        from props import c14_reconf
+        yield from c14_reconf.shrink(case)
+        return
     if inp["level"] == "session":
         st = inp["steps"]
         for i in range(len(st)):
@@ -351,6 +371,9 @@ def impl(case):
     inp = case["input"]
     if inp["level"] == "session":
         return impl_session(case)
+    if inp["level"] == "reconfig":
+        from props import c14_reconf
+        return c14_reconf.impl(case)
 
     def parse(s):
         """('ok', dict) | ('inv', code); other exceptions propagate"""
@@ -456,21 +479,29 @@ def impl(case):
         return rec
 
     # ---- whole stack
+    return stack_case(inp["fields"])
+
+
+def stack_case(fields, mws=None):
+    """the stack level on one entry; mws = (SeparateCoAuthors, SplitNameParts, MergeNameParts, MergeCoAuthors) instances to use
+    for the parse and the write (None: new default ones, as the property states it); the re-parse always uses new ones"""
+    import enc
+    import implutil
     import bibtexparser
     from bibtexparser.middlewares.names import SeparateCoAuthors, SplitNameParts, MergeNameParts, MergeCoAuthors
-    fields = inp["fields"]
     text = "@article{key1,\n" + ",\n".join("  %s = {%s}" % (k, v) if k != "year" else "  %s = %s" % (k, v) for k, v in fields) + "\n}\n"
     rec = {"key": "s" + json.dumps(fields), "tags": ["stack"], "nontrivial": True}
     abstract = ()
 
     def run():
         plain = bibtexparser.parse_string(text)
-        lib1 = bibtexparser.parse_string(text, append_middleware=[SeparateCoAuthors(), SplitNameParts()])
+        sep, spl, mp, mc = mws if mws is not None else (SeparateCoAuthors(), SplitNameParts(), MergeNameParts(), MergeCoAuthors())
+        lib1 = bibtexparser.parse_string(text, append_middleware=[sep, spl])
         snap1 = enc.enc_block(lib1.blocks[0], abstract)
         names1 = None
         if type(lib1.blocks[0]).__name__ == "Entry":
             names1 = [(f.key, [nc.parts_dict(p) for p in f.value]) for f in lib1.blocks[0].fields if f.key in NF]
-        text2 = bibtexparser.write_string(lib1, prepend_middleware=[MergeNameParts(), MergeCoAuthors()])
+        text2 = bibtexparser.write_string(lib1, prepend_middleware=[mp, mc])
         plain2 = bibtexparser.parse_string(text2)
         lib2 = bibtexparser.parse_string(text2, append_middleware=[SeparateCoAuthors(), SplitNameParts()])
         return plain, snap1, names1, text2, plain2, lib2
